@@ -57,7 +57,45 @@ def check_finite_inputs(res):
                 raise Discard("plain junction receives people while its proportions sum to <= 0")
 
 
-def check_overflow(res, limit=1e100):
+def _explained_by_function_domain(res, spec, pop, par, ti):
+    """Is the non-finite value of this parameter at ti what its own function gives for the same-step values atomica REPORTS for the
+    dependencies (x/0, ln(0), sqrt of a negative number ...)?  True = outside the domain of the flow properties.  False = the reported
+    inputs give a finite value, so the non-finite number was made by the engine itself and the case must be judged."""
+    import math
+    from . import expr
+
+    if spec is None or "pars" not in spec:
+        return True
+    sp = {p_["name"]: p_ for p_ in spec["pars"]}.get(par.name)
+    if sp is None or not sp.get("fn"):
+        return True  # data / transfer parameter: non-finite data is not generated, leave the decision as it was
+    fn = sp["fn"]
+    if fn.startswith(("SRC_POP", "TGT_POP")) or sp.get("deriv"):
+        return True
+    env = {"t": float(res.t[ti]), "dt": float(res.model.dt)}
+    try:
+        for nm in expr.names(fn):
+            if nm in ("t", "dt"):
+                continue
+            if ":" in nm:
+                return True
+            v = None
+            for group in (pop.comps, pop.characs, pop.pars):
+                for o in group:
+                    if o.name == nm:
+                        v = float(np.asarray(o.vals, dtype=float)[ti])
+            if v is None:
+                return True
+            env[nm] = v
+        val = expr.evaluate(fn, env, probe=False)
+    except Exception:
+        return True
+    if not all(math.isfinite(x) for x in env.values()):
+        return True
+    return not math.isfinite(val)
+
+
+def check_overflow(res, limit=1e100, spec=None):
     """float overflow through explosive feedback is outside every property's domain (magnitudes up to 1e12 are generated);
     so is a parameter that is NaN while every stock is still finite (a function such as sqrt of a negative value: C06 decides parameters)"""
     T = len(res.t)
@@ -72,6 +110,8 @@ def check_overflow(res, limit=1e100):
             pv = np.asarray(par.vals, dtype=float)
             bad = np.nonzero(~np.isfinite(pv))[0]
             if bad.size and int(bad[0]) <= first_bad_stock and (par.links or getattr(par, "_is_dynamic", False)):
+                if not _explained_by_function_domain(res, spec, pop, par, int(bad[0])):
+                    return  # the engine produced a non-finite parameter from finite reported inputs: inside the domain, to be judged
                 raise Discard("a parameter is NaN or infinite while all stocks are still finite (function outside its domain, e.g. x/0; parameters are decided by C06)")
     for pop, c in all_comps(res):
         v = np.asarray(c.vals, dtype=float)
